@@ -300,7 +300,19 @@ def gen_deck(rng, style=None):
         lits = []
         for k, ((point, nrm), side) in enumerate(surfs):
             sid = 301 + k
-            surfaces.append(plane_card(sid, point, nrm))
+            card = plane_card(sid, point, nrm)
+            factor = rng.choice([1.0, 1.0, 1.0, 0.5, 2.0, -1.0, -3.0])
+            if factor != 1.0:
+                # the same plane with its equation multiplied through
+                if card['mn'] != 'p':
+                    unit = [0.0, 0.0, 0.0]
+                    unit['xyz'.index(card['mn'][1])] = 1.0
+                    card['mn'], card['params'] = 'p', unit + card['params']
+                card['params'] = [gen.clean(factor * v)
+                                  for v in card['params']]
+                if factor < 0:
+                    side = -side
+            surfaces.append(card)
             lits.append(S(sid * side))
         expr = ('*',) + tuple(lits)
         vecs = gen.spec_vectors(hexa, listing, surfs)
